@@ -58,6 +58,12 @@ def _standard_offset(zone: str):
     return _STD[zone]
 
 
+# twins: the same abbreviations, the same standard and summer offsets today (time.tzname / timezone / altzone are identical), but
+# another history - instants at which the two disagreed
+TWINS = {"America/New_York": ("America/Indiana/Indianapolis", [962_625_600, 962_625_600 + 86_400 * 20 + 4_500, 1_090_000_000]),
+         "Europe/Berlin": ("Europe/Paris", [268_142_400, 268_142_400 + 86_400 * 9 + 33_000, 300_000_000])}
+
+
 def confusable(zone: str, epoch: float, zones) -> list:
     """Other zones that share this zone's UTC offset at `epoch` (but differ within a day of it), or share its abbreviation pair
     (but not its offset): what a cache keyed by 'the offset now' or by time.tzname cannot tell apart."""
